@@ -50,8 +50,11 @@ pub fn intersect_cl(c: &Circle, l: &Line) -> CircleLineIntersection {
         CircleLineIntersection::None
     } else if d > c.r - EPS {
         let ort = Point::new(l.a, l.b);
-        let ort = ort / ort.len();
-        CircleLineIntersection::Touch(ort * c.r)
+        let mut ort = ort / ort.len();
+        if l.a * c.c.x + l.b * c.c.y + l.c > 0.0 {
+            ort = ort * -1.0;
+        }
+        CircleLineIntersection::Touch(c.c + ort * d)
     } else {
         let mut ort = Point::new(l.a, l.b);
         if ort.len() != 0.0 {
